@@ -91,8 +91,11 @@ Definition avail (r : req) (o : op) : bool :=
 
 Lemma step_err_avail r done o : step_err r done o = None -> avail r o = true.
 Proof.
-  unfold step_err, avail. destruct o; try reflexivity;
-    destruct (e_sap (env_of r)), (e_orc (env_of r)), (e_iw (env_of r)); cbn; congruence.
+  unfold step_err, avail.
+  destruct (is_deferred r && negb (deferred_op o)); [discriminate|].
+  generalize (e_sap (env_of r)) (e_orc (env_of r)) (e_iw (env_of r)) (e_cross (env_of r)).
+  intros a b c d.
+  destruct o; try reflexivity; destruct a, b, c, d; cbn [negb]; try reflexivity; congruence.
 Qed.
 
 Lemma run_ops_ok r : forall todo done hd i hd',
@@ -220,8 +223,9 @@ Qed.
 (* ------------------------------------------------------------ inversion of a successful build *)
 Definition route_ok (r : req) (hd : ver * Z) : Prop :=
   match r_route r with
-  | Pczt => e_sap (env_of r) && negb (zip212_on (r_net r) (r_height r)) = false
-  | _ => has_overwinter (fst hd) = true
+  | Pczt | Deferred => e_sap (env_of r) && negb (zip212_on (r_net r) (r_height r)) = false
+  | _ => has_overwinter (fst hd) = true /\
+         forallb (p2sh_signable (r_keys r)) (tsh_mn (r_ops r)) = true
   end.
 
 Lemma finish_ok_inv r hd b : finish r hd = Ok b ->
@@ -242,12 +246,17 @@ Proof.
   exists fee.
   assert (G : b = assemble r hd fee /\
               match r_route r with
-              | Pczt => e_sap (env_of r) && negb (zip212_on (r_net r) (r_height r)) = false
-              | _ => has_overwinter (fst hd) = true
+              | Pczt | Deferred => e_sap (env_of r) && negb (zip212_on (r_net r) (r_height r)) = false
+              | _ => has_overwinter (fst hd) = true /\
+                     forallb (p2sh_signable (r_keys r)) (tsh_mn (r_ops r)) = true
               end).
   { destruct (r_route r).
-    - destruct (has_overwinter (fst hd)); [inversion H; auto|discriminate].
-    - destruct (has_overwinter (fst hd)); [inversion H; auto|discriminate].
+    - destruct (has_overwinter (fst hd)); [|discriminate]. cbn [negb] in H.
+      destruct (forallb _ _); [inversion H; auto|discriminate].
+    - destruct (has_overwinter (fst hd)); [|discriminate]. cbn [negb] in H.
+      destruct (forallb _ _); [inversion H; auto|discriminate].
+    - destruct (e_sap (env_of r) && negb (zip212_on (r_net r) (r_height r)));
+        [discriminate|inversion H; auto].
     - destruct (e_sap (env_of r) && negb (zip212_on (r_net r) (r_height r)));
         [discriminate|inversion H; auto]. }
   destruct G as [G1 G2]. repeat split; auto.
@@ -261,7 +270,7 @@ Lemma build_ok_inv r b : build r = Ok b ->
     value_balance r = Ok fee /\
     b = assemble r hd fee /\ route_ok r hd.
 Proof.
-  unfold build. intros H.
+  unfold build. intros H. destruct (deferral_refused r); [discriminate|].
   destruct (run_ops r [] (r_ops r) (init_hdr r) 0) as [hd| |] eqn:R; try discriminate.
   apply finish_ok_inv in H. destruct H as (fee & H). exists hd, fee. tauto.
 Qed.
@@ -326,39 +335,47 @@ Proof.
   repeat split; intros; congruence.
 Qed.
 
+Lemma env_iw r : e_iw (env_of r) =
+  is_deferred r || r_iw r && branch_has_ironwood (branch_at (r_net r) (r_height r)).
+Proof. unfold env_of. cbn [e_iw]. destruct (branch_at (r_net r) (r_height r)); reflexivity. Qed.
+Lemma env_orc r : e_orc (env_of r) =
+  is_deferred r || r_orc r && branch_has_orchard (branch_at (r_net r) (r_height r)).
+Proof. reflexivity. Qed.
+
+Lemma in_use_implies_needs r ops :
+  (orchard_in_use r ops = true -> needs_orchard r ops = true) /\
+  (ironwood_in_use r ops = true -> needs_ironwood r ops = true).
+Proof.
+  unfold orchard_in_use, needs_orchard, ironwood_in_use, needs_ironwood.
+  rewrite env_iw, env_orc. split; intros H; apply andb_prop in H; destruct H as [H1 H2].
+  - rewrite H1. rewrite andb_true_l.
+    destruct (nonempty (os_vals ops) || nonempty (oo_vals ops) || nonempty (oc_vals ops)) eqn:E;
+      [reflexivity|]. cbn [orb] in *. exact H2.
+  - rewrite H1. rewrite andb_true_l.
+    destruct (nonempty (is_vals ops) || nonempty (io_vals ops)) eqn:E; [reflexivity|].
+    cbn [orb] in *. exact H2.
+Qed.
+
 Lemma check_version_some r ops v e : check_version r ops v = Some e ->
   (exists p, e = ETarget v p) /\ version_refusable r ops v = true.
 Proof.
-  unfold check_version, version_refusable, needs_sapling, needs_orchard, needs_ironwood,
-    sapling_in_use, orchard_in_use, ironwood_in_use, env_of.
-  cbn [e_branch e_orc e_iw].
+  unfold check_version, version_refusable.
+  change (e_branch (env_of r)) with (branch_at (r_net r) (r_height r)).
   set (br := branch_at (r_net r) (r_height r)).
+  destruct (in_use_implies_needs r ops) as [No Ni].
   intros H.
   destruct (valid_in_branch v br) eqn:Vb; cbn [negb] in H.
   2:{ inversion H. split; [eauto|reflexivity]. }
-  destruct (negb (has_sapling v && branch_has_sapling br)
-            && (nonempty (ss_vals ops) || nonempty (so_vals ops))) eqn:S.
-  { inversion H. split; [eauto|]. cbn [negb orb]. rewrite andb_comm in S. rewrite S. reflexivity. }
-  destruct (negb (has_orchard v && branch_has_orchard br) && _) eqn:O in H.
-  { inversion H. split; [eauto|]. cbn [negb orb].
-    apply andb_prop in O. destruct O as [O1 O2]. rewrite O1.
-    apply andb_prop in O2. destruct O2 as [O2 O3].
-    apply andb_prop in O2. destruct O2 as [O2 O4].
-    rewrite O2, O4. rewrite !andb_true_r.
-    apply orb_prop in O3. destruct O3 as [O3|O3].
-    - rewrite O3. rewrite !orb_true_l, !orb_true_r. reflexivity.
-    - rewrite O3. rewrite !orb_true_r. reflexivity. }
-  destruct (negb (has_ironwood v && branch_has_ironwood br) && _) eqn:I in H; [|discriminate].
-  inversion H. split; [eauto|]. cbn [negb orb].
-  apply andb_prop in I. destruct I as [I1 I2]. rewrite I1.
-  apply andb_prop in I2. destruct I2 as [I2 I3].
-  apply andb_prop in I2. destruct I2 as [I2 I4].
-  assert (Bi : branch_has_ironwood br = true).
-  { destruct br; cbn in I4; try discriminate; reflexivity. }
-  rewrite I2, Bi. rewrite !andb_true_r.
-  apply orb_prop in I3. destruct I3 as [I3|I3].
-  - rewrite I3. rewrite !orb_true_r. reflexivity.
-  - rewrite I3. rewrite !orb_true_r. reflexivity.
+  cbn [orb].
+  destruct (negb (has_sapling v && branch_has_sapling br) && sapling_in_use ops) eqn:S.
+  { inversion H. split; [eauto|]. unfold needs_sapling. unfold sapling_in_use in S.
+    rewrite andb_comm in S. rewrite S. reflexivity. }
+  destruct (negb (has_orchard v && branch_has_orchard br) && orchard_in_use r ops) eqn:O.
+  { inversion H. split; [eauto|]. apply andb_prop in O. destruct O as [O1 O2].
+    rewrite (No O2), O1. cbn [andb]. now rewrite orb_true_r. }
+  destruct (negb (has_ironwood v && branch_has_ironwood br) && ironwood_in_use r ops) eqn:I; [|discriminate].
+  inversion H. split; [eauto|]. apply andb_prop in I. destruct I as [I1 I2].
+  rewrite (Ni I2), I1. cbn [andb]. now rewrite orb_true_r.
 Qed.
 
 (* ------------------------------------------------------------ what a successful build contains *)
@@ -384,6 +401,26 @@ Section Assembled.
       apply nonempty_false in U1, U2. subst ops. now rewrite U1, U2.
   Qed.
 
+  Lemma orc_not_in_use : e_orc e = true -> orchard_in_use r ops = false ->
+    os_vals ops = [] /\ oo_vals ops = [] /\ oc_vals ops = [] /\ p_req (r_opad r) = false.
+  Proof.
+    intros Eo U. unfold orchard_in_use in U. fold e in U. rewrite Eo in U. cbn [andb] in U.
+    apply orb_false_elim in U. destruct U as [U U4]. apply orb_false_elim in U. destruct U as [U U3].
+    apply orb_false_elim in U. destruct U as [U1 U2].
+    apply nonempty_false in U1, U2, U3. auto.
+  Qed.
+  Lemma iw_not_in_use : e_iw e = true -> ironwood_in_use r ops = false ->
+    is_vals ops = [] /\ io_vals ops = [] /\ p_req (r_ipad r) = false.
+  Proof.
+    intros Ei U. unfold ironwood_in_use in U. fold e in U. rewrite Ei in U. cbn [andb] in U.
+    apply orb_false_elim in U. destruct U as [U U3]. apply orb_false_elim in U. destruct U as [U1 U2].
+    apply nonempty_false in U1, U2. auto.
+  Qed.
+  Lemma not_deferred_of_orc : e_orc e = false -> is_deferred r = false.
+  Proof. subst e. rewrite env_orc. intros H. apply orb_false_elim in H. tauto. Qed.
+  Lemma not_deferred_of_iw : e_iw e = false -> is_deferred r = false.
+  Proof. subst e. rewrite env_iw. intros H. apply orb_false_elim in H. tauto. Qed.
+
   Lemma sap_facts :
     bundle_vb (b_sap b) = zsum (ss_vals ops) - zsum (so_vals ops) /\
     b_nsp (b_sap b) = sh_sin (req_shape r) /\ b_nout (b_sap b) = sh_sout (req_shape r) /\
@@ -400,7 +437,7 @@ Section Assembled.
     - rewrite Sout. rewrite sapling_num_spends_id by assumption.
       destruct (sapling_num_outputs_ge (len (ss_vals ops)) (len (so_vals ops)) Ls Lo) as [G1 G2].
       cbn [andb].
-      destruct ((match r_route r with Pczt => true | _ => false end)
+      destruct (is_pczt r
                 || (0 <? len (ss_vals ops) + sapling_num_outputs (len (ss_vals ops)) (len (so_vals ops)))) eqn:P.
       + cbn [bundle_vb b_nsp b_nout mk_bundle sb_vb sb_nsp sb_nout].
         repeat split; try reflexivity.
@@ -430,17 +467,36 @@ Section Assembled.
       destruct (orchard_num_actions_ge (r_opad r) (e_cross e) (len (os_vals ops))
                   (len (oo_vals ops) + len (oc_vals ops)) Ls ltac:(lia)) as [G1 G2]. fold n in G1, G2.
       cbn [andb].
-      destruct ((match r_route r with Pczt => true | _ => false end) || (0 <? n)) eqn:P.
-      + cbn [bundle_vb b_nout mk_bundle sb_vb sb_nout]. repeat split; try reflexivity.
-        apply pool_okb_bundle; [lia|rewrite len_app; lia|rewrite zsum_app; lia].
-      + apply orb_false_elim in P. destruct P as [_ P].
-        assert (Hn : n <= 0) by lia.
+      assert (Yes : bundle_vb (Some (mk_bundle (is_pczt r) n n
+                       (zsum (os_vals ops) - zsum (oo_vals ops) - zsum (oc_vals ops))
+                       (os_vals ops) (oo_vals ops ++ oc_vals ops)))
+                    = zsum (os_vals ops) - zsum (oo_vals ops) - zsum (oc_vals ops) /\
+                    b_nout (Some (mk_bundle (is_pczt r) n n
+                       (zsum (os_vals ops) - zsum (oo_vals ops) - zsum (oc_vals ops))
+                       (os_vals ops) (oo_vals ops ++ oc_vals ops))) = n /\
+                    pool_okb (Some (mk_bundle (is_pczt r) n n
+                       (zsum (os_vals ops) - zsum (oo_vals ops) - zsum (oc_vals ops))
+                       (os_vals ops) (oo_vals ops ++ oc_vals ops))) (os_vals ops) (oo_vals ops ++ oc_vals ops) = true).
+      { cbn [bundle_vb b_nout mk_bundle sb_vb sb_nout]. repeat split; try reflexivity.
+        apply pool_okb_bundle; [lia|rewrite len_app; lia|rewrite zsum_app; lia]. }
+      assert (No : n <= 0 ->
+                   bundle_vb None = zsum (os_vals ops) - zsum (oo_vals ops) - zsum (oc_vals ops) /\
+                   b_nout None = n /\ pool_okb None (os_vals ops) (oo_vals ops ++ oc_vals ops) = true).
+      { intros Hn.
         destruct (orchard_num_actions_zero (r_opad r) (e_cross e) (len (os_vals ops))
                     (len (oo_vals ops) + len (oc_vals ops)) Ls ltac:(lia) Hn) as [Z1 Z2].
         assert (Z3 : len (oo_vals ops) = 0) by lia. assert (Z4 : len (oc_vals ops) = 0) by lia.
         apply len_zero_nil in Z1, Z3, Z4. rewrite Z1, Z3, Z4. cbn.
-        repeat split; try reflexivity. lia.
-    - destruct (avail_no_orchard r _ F Eo) as (Z1 & Z2 & Z3). fold ops in Z1, Z2, Z3.
+        repeat split; try reflexivity. lia. }
+      destruct (is_deferred r) eqn:D.
+      + destruct (orchard_in_use r ops) eqn:U; [exact Yes|].
+        apply No. destruct (orc_not_in_use Eo U) as (Z1 & Z2 & Z3 & Z4).
+        subst n. rewrite Z1, Z2, Z3. cbn [len length]. change (Z.of_nat 0 + Z.of_nat 0) with 0.
+        change (Z.of_nat 0) with 0. rewrite orchard_num_actions_unused by assumption. lia.
+      + destruct (is_pczt r || (0 <? n)) eqn:P; [exact Yes|].
+        apply No. apply orb_false_elim in P. lia.
+    - rewrite (not_deferred_of_orc Eo).
+      destruct (avail_no_orchard r _ F Eo) as (Z1 & Z2 & Z3). fold ops in Z1, Z2, Z3.
       rewrite Z1, Z2, Z3. cbn. repeat split; reflexivity.
   Qed.
 
@@ -460,26 +516,38 @@ Section Assembled.
     - set (n := orchard_num_actions (r_ipad r) true (len (is_vals ops)) (len (io_vals ops))).
       destruct (orchard_num_actions_ge (r_ipad r) true _ _ Ls Lo) as [G1 G2]. fold n in G1, G2.
       cbn [andb].
+      assert (Unused : ironwood_in_use r ops = false -> n = 0).
+      { intros U. destruct (iw_not_in_use Ei U) as (Z1 & Z2 & Z3). subst n. rewrite Z1, Z2.
+        cbn [len length]. change (Z.of_nat 0) with 0. now apply orchard_num_actions_unused. }
       assert (Use : 0 < n -> has_ironwood (fst hd) && branch_has_ironwood (e_branch e) = true).
       { intros Hn. destruct (check_version_none _ _ _ C) as (_ & _ & _ & Hi). apply Hi.
-        unfold ironwood_in_use. fold e. rewrite Ei. cbn [andb]. fold ops.
-        destruct (p_req (r_ipad r)) eqn:Pr; [now rewrite !orb_true_r|].
-        destruct (nonempty (is_vals ops)) eqn:N1; [reflexivity|].
-        destruct (nonempty (io_vals ops)) eqn:N2; [reflexivity|].
-        apply nonempty_false in N1, N2. subst n. rewrite N1, N2 in Hn. cbn [len length] in Hn.
-        change (Z.of_nat 0) with 0 in Hn. rewrite orchard_num_actions_unused in Hn by assumption. lia. }
-      destruct (if match r_route r with Pczt => true | _ => false end
-                then has_ironwood (fst hd) else 0 <? n) eqn:P.
-      + cbn [bundle_vb b_nout mk_bundle sb_vb sb_nout]. repeat split; try reflexivity.
-        * apply pool_okb_bundle; [lia|lia|reflexivity].
-        * exact Use.
-      + assert (Zn : n = 0).
-        { destruct (r_route r); lia. }
-        assert (Hn : n <= 0) by lia.
+        destruct (ironwood_in_use r (r_ops r)) eqn:U; [reflexivity|]. apply Unused in U. lia. }
+      assert (Yes : bundle_vb (Some (mk_bundle (is_pczt r) n n (zsum (is_vals ops) - zsum (io_vals ops))
+                        (is_vals ops) (io_vals ops))) = zsum (is_vals ops) - zsum (io_vals ops) /\
+                    b_nout (Some (mk_bundle (is_pczt r) n n (zsum (is_vals ops) - zsum (io_vals ops))
+                        (is_vals ops) (io_vals ops))) = n /\
+                    pool_okb (Some (mk_bundle (is_pczt r) n n (zsum (is_vals ops) - zsum (io_vals ops))
+                        (is_vals ops) (io_vals ops))) (is_vals ops) (io_vals ops) = true /\
+                    (0 < b_nout (Some (mk_bundle (is_pczt r) n n (zsum (is_vals ops) - zsum (io_vals ops))
+                        (is_vals ops) (io_vals ops))) ->
+                     has_ironwood (fst hd) && branch_has_ironwood (e_branch e) = true)).
+      { cbn [bundle_vb b_nout mk_bundle sb_vb sb_nout]. repeat split; try reflexivity.
+        - apply pool_okb_bundle; [lia|lia|reflexivity].
+        - exact Use. }
+      assert (No : n <= 0 ->
+                   bundle_vb None = zsum (is_vals ops) - zsum (io_vals ops) /\
+                   b_nout None = n /\ pool_okb None (is_vals ops) (io_vals ops) = true /\
+                   (0 < b_nout None -> has_ironwood (fst hd) && branch_has_ironwood (e_branch e) = true)).
+      { intros Hn.
         destruct (orchard_num_actions_zero (r_ipad r) true (len (is_vals ops)) (len (io_vals ops)) Ls Lo Hn) as [Z1 Z2].
         apply len_zero_nil in Z1, Z2. rewrite Z1, Z2. cbn.
-        repeat split; try reflexivity; lia.
-    - destruct (avail_no_ironwood r _ F Ei) as (Z1 & Z2). fold ops in Z1, Z2.
+        repeat split; try reflexivity; lia. }
+      destruct (is_deferred r) eqn:D.
+      + destruct (ironwood_in_use r ops) eqn:U; [exact Yes|]. apply No. rewrite (Unused eq_refl). lia.
+      + destruct (if is_pczt r then has_ironwood (fst hd) else 0 <? n) eqn:P; [exact Yes|].
+        apply No. destruct (is_pczt r); lia.
+    - rewrite (not_deferred_of_iw Ei).
+      destruct (avail_no_ironwood r _ F Ei) as (Z1 & Z2). fold ops in Z1, Z2.
       rewrite Z1, Z2. cbn. repeat split; try reflexivity. lia.
   Qed.
 
@@ -488,7 +556,7 @@ Section Assembled.
   Proof.
     unfold fee_paid, requested_balance.
     destruct sap_facts as (S & _). destruct orc_facts as (O & _). destruct iw_facts as (I & _).
-    rewrite S, O, I. subst b. unfold transparent_vb, assemble. cbn [b_tin b_tout]. fold ops. lia.
+    rewrite S, O, I. subst b. unfold transparent_vb, assemble, tin_vals. cbn [b_tin b_tout]. fold ops. lia.
   Qed.
 
   (** the fee rule was asked about exactly the shape of what was built *)
@@ -505,7 +573,7 @@ Section Assembled.
     destruct sap_facts as (_ & _ & _ & S). destruct orc_facts as (_ & _ & O).
     destruct iw_facts as (_ & _ & I & _).
     unfold contents_okb. rewrite S, O, I. subst b. unfold assemble. cbn [b_tin b_tout]. fold ops.
-    now rewrite lz_refl, lzz_refl.
+    now rewrite !lzz_refl.
   Qed.
 End Assembled.
 
@@ -531,7 +599,7 @@ Lemma built_fee r b : build r = Ok b ->
   fee_paid b = rule_fee (r_rule r) (req_shape r) /\
   tx_shape b = req_shape r /\
   fee_paid b = requested_balance (r_ops r) /\
-  b_fee_paid b = match r_route r with Pczt => None | _ => Some (fee_paid b) end.
+  b_fee_paid b = if is_pczt r then None else Some (fee_paid b).
 Proof.
   intros H. apply build_ok_inv in H. destruct H as (hd & fee & R & Fe & C & V & -> & _).
   destruct (run_ops_hdr _ _ R) as (_ & _ & F).
@@ -539,7 +607,7 @@ Proof.
   pose proof (assemble_shape r hd fee F C) as S.
   apply value_balance_exact in V; [|exact F]. apply fee_required_some in Fe. destruct Fe as [Fe _].
   repeat split; try congruence.
-  rewrite P, <- V. unfold assemble. cbn [b_fee_paid]. destruct (r_route r); reflexivity.
+  rewrite P, <- V. unfold assemble. cbn [b_fee_paid]. destruct (is_pczt r); reflexivity.
 Qed.
 
 Lemma built_contents r b : build r = Ok b -> contents_okb (r_ops r) b = true.
@@ -602,16 +670,13 @@ Lemma in_use_needs r ops : Forall (fun o => avail r o = true) ops ->
   orchard_in_use r ops = needs_orchard r ops /\ ironwood_in_use r ops = needs_ironwood r ops.
 Proof.
   intros F. unfold orchard_in_use, needs_orchard, ironwood_in_use, needs_ironwood.
-  assert (Ei : e_iw (env_of r) = r_iw r && branch_has_ironwood (branch_at (r_net r) (r_height r))).
-  { unfold env_of. cbn [e_iw]. destruct (branch_at (r_net r) (r_height r)); reflexivity. }
-  assert (Eo : e_orc (env_of r) = r_orc r && branch_has_orchard (branch_at (r_net r) (r_height r))) by reflexivity.
   split.
   - destruct (e_orc (env_of r)) eqn:E.
-    + rewrite <- Eo. cbn [andb]. reflexivity.
-    + destruct (avail_no_orchard r _ F E) as (-> & -> & ->). rewrite <- Eo. reflexivity.
+    + rewrite <- env_orc, E. cbn [andb]. reflexivity.
+    + destruct (avail_no_orchard r _ F E) as (-> & -> & ->). rewrite <- env_orc, E. reflexivity.
   - destruct (e_iw (env_of r)) eqn:E.
-    + rewrite <- Ei. cbn [andb]. reflexivity.
-    + destruct (avail_no_ironwood r _ F E) as (-> & ->). rewrite <- Ei. reflexivity.
+    + rewrite <- env_iw, E. cbn [andb]. reflexivity.
+    + destruct (avail_no_ironwood r _ F E) as (-> & ->). rewrite <- env_iw, E. reflexivity.
 Qed.
 
 Lemma check_version_refusable r ops v : Forall (fun o => avail r o = true) ops ->
@@ -652,7 +717,7 @@ Lemma finish_err r hd e : finish r hd = Err e ->
             ((e = EBalance false /\ bal - fee < - MAX_MONEY) \/
              (e = EInsufficient (fee - bal) /\ - MAX_MONEY <= bal - fee < 0) \/
              (e = EChange (bal - fee) /\ 0 < bal - fee) \/
-             (e = ESaplingZip212 /\ bal = fee))))))).
+             ((e = ESaplingZip212 \/ e = ETransparentBuild) /\ bal = fee))))))).
 Proof.
   unfold finish. intros H.
   destruct (fee_required (r_rule r) (req_shape r)) as [fee|] eqn:F.
@@ -671,9 +736,16 @@ Proof.
   destruct (0 <? bal - fee) eqn:E3.
   { inversion H. right. right. left. split; [reflexivity|lia]. }
   right. right. right.
-  destruct (r_route r); try (destruct (has_overwinter (fst hd)); discriminate).
-  destruct (e_sap (env_of r) && negb (zip212_on (r_net r) (r_height r))); [|discriminate].
-  inversion H. split; [reflexivity|lia].
+  split; [|lia].
+  destruct (r_route r).
+  - destruct (negb (has_overwinter (fst hd))); [discriminate|].
+    destruct (forallb _ _); [discriminate|]. inversion H. auto.
+  - destruct (negb (has_overwinter (fst hd))); [discriminate|].
+    destruct (forallb _ _); [discriminate|]. inversion H. auto.
+  - destruct (e_sap (env_of r) && negb (zip212_on (r_net r) (r_height r))); [|discriminate].
+    inversion H. auto.
+  - destruct (e_sap (env_of r) && negb (zip212_on (r_net r) (r_height r))); [|discriminate].
+    inversion H. auto.
 Qed.
 
 Lemma run_ops_err r : forall todo done hd i e,
@@ -703,6 +775,7 @@ Lemma build_err_amount r e : build r = Err e ->
      0 < a /\ requested_balance (r_ops r) - a = rule_fee (r_rule r) (req_shape r)).
 Proof.
   unfold build. intros H.
+  destruct (deferral_refused r). { inversion H. split; intros a Ha; discriminate. }
   destruct (run_ops r [] (r_ops r) (init_hdr r) 0) as [hd|e0|] eqn:R; [| |discriminate].
   2:{ inversion H. subst e0. apply run_ops_err in R. destruct R as (k & o & e' & -> & _).
       split; intros a Ha; discriminate. }
@@ -713,12 +786,13 @@ Proof.
   - apply check_version_some in C. destruct C as [[p ->] _]. split; intros a Ha; discriminate.
   - split; intros a Ha; discriminate.
   - apply value_balance_exact in V; [|exact F]. apply fee_required_some in Fe. destruct Fe as [Fe _].
-    destruct Hc as [[-> _]|[[-> Hc]|[[-> Hc]|[-> _]]]]; split; intros a Ha; try discriminate;
+    destruct Hc as [[-> _]|[[-> Hc]|[[-> Hc]|[[->| ->] _]]]]; split; intros a Ha; try discriminate;
       inversion Ha; subst; lia.
 Qed.
 
 (** the converse direction: an unbalanced, otherwise acceptable request is refused *)
 Lemma unbalanced_fails r hd fee bal :
+  deferral_refused r = false ->
   run_ops r [] (r_ops r) (init_hdr r) 0 = Ok hd ->
   fee_required (r_rule r) (req_shape r) = Some fee ->
   check_version r (r_ops r) (fst hd) = None ->
@@ -727,7 +801,7 @@ Lemma unbalanced_fails r hd fee bal :
   build r = Err (if bal - fee <? - MAX_MONEY then EBalance false
                  else if bal <? fee then EInsufficient (fee - bal) else EChange (bal - fee)).
 Proof.
-  intros R Fe C V Hne. unfold build. rewrite R. unfold finish. rewrite Fe, C, V.
+  intros DR R Fe C V Hne. unfold build. rewrite DR, R. unfold finish. rewrite Fe, C, V.
   destruct (bal - fee <? - MAX_MONEY) eqn:E1; [reflexivity|].
   destruct (bal - fee <? 0) eqn:E2.
   - replace (bal <? fee) with true by lia. reflexivity.
@@ -738,6 +812,7 @@ Lemma build_err_target r v p : build r = Err (ETarget v p) ->
   v = requested_version r /\ version_refusable r (r_ops r) v = true.
 Proof.
   unfold build. intros H.
+  destruct (deferral_refused r); [discriminate|].
   destruct (run_ops r [] (r_ops r) (init_hdr r) 0) as [hd|e0|] eqn:R; [| |discriminate].
   2:{ inversion H. subst e0. apply run_ops_err in R. destruct R as (k & o & e' & E & _). discriminate. }
   destruct (run_ops_hdr _ _ R) as (Hv & _ & _).
@@ -745,7 +820,7 @@ Proof.
   destruct H as [[E _]|(fee & Fe & [C|(C & [[E _]|(bal & V & Hc)])])]; try discriminate.
   - apply check_version_some in C. destruct C as [[q E] Rf]. inversion E. subst v.
     split; [exact Hv|exact Rf].
-  - destruct Hc as [[E _]|[[E _]|[[E _]|[E _]]]]; discriminate.
+  - destruct Hc as [[E _]|[[E _]|[[E _]|[[E|E] _]]]]; discriminate.
 Qed.
 
 Lemma build_err_add_target r i v p : build r = Err (EAdd i (ETarget v p)) ->
@@ -753,14 +828,16 @@ Lemma build_err_add_target r i v p : build r = Err (EAdd i (ETarget v p)) ->
   version_refusable r (firstn (Z.to_nat i) (r_ops r)) v = true.
 Proof.
   unfold build. intros H.
+  destruct (deferral_refused r); [discriminate|].
   destruct (run_ops r [] (r_ops r) (init_hdr r) 0) as [hd|e0|] eqn:R; [| |discriminate].
   - apply finish_err in H.
     destruct H as [[E _]|(fee & Fe & [C|(C & [[E _]|(bal & V & Hc)])])]; try discriminate.
     + apply check_version_some in C. destruct C as [[q E] _]. discriminate.
-    + destruct Hc as [[E _]|[[E _]|[[E _]|[E _]]]]; discriminate.
+    + destruct Hc as [[E _]|[[E _]|[[E _]|[[E|E] _]]]]; discriminate.
   - inversion H. subst e0. apply run_ops_err in R. destruct R as (k & o & e' & E & N & S).
     inversion E. subst i e'. clear E. rewrite ?Z.add_0_l, Nat2Z.id. rewrite N. cbn [app] in S.
-    destruct o; cbn [step_err] in S;
+    unfold step_err in S. destruct (is_deferred r && negb (deferred_op o)); [discriminate|].
+    destruct o;
       try (repeat match type of S with context [if ?x then _ else _] => destruct x end; discriminate).
     apply check_version_some in S. destruct S as [[q E'] Rf]. inversion E'. subst.
     split; [apply ver_eqb_refl|exact Rf].
@@ -769,6 +846,7 @@ Qed.
 Lemma build_panic r : build r = Panic -> panic_class r = true.
 Proof.
   unfold build. intros H.
+  destruct (deferral_refused r); [discriminate|].
   destruct (run_ops r [] (r_ops r) (init_hdr r) 0) as [hd|e0|] eqn:R; [|discriminate|].
   2:{ exfalso. eapply run_ops_not_panic; eauto. }
   destruct (run_ops_hdr _ _ R) as (Hv & _ & _).
@@ -779,12 +857,18 @@ Proof.
   - destruct (bal - z <? - MAX_MONEY); [discriminate|].
     destruct (bal - z <? 0); [discriminate|]. destruct (0 <? bal - z); [discriminate|].
     rewrite <- Hv.
-    destruct (r_route r); try (destruct (has_overwinter (fst hd)); [discriminate|now rewrite orb_true_r]).
-    destruct (e_sap (env_of r) && negb (zip212_on (r_net r) (r_height r))); discriminate.
-  - unfold value_balance in V. change (e_sap (env_of r)) with (r_sap r) in V.
+    destruct (r_route r).
+    + destruct (has_overwinter (fst hd)); [|now rewrite orb_true_r].
+      cbn [negb] in H. destruct (forallb _ _); discriminate.
+    + destruct (has_overwinter (fst hd)); [|now rewrite orb_true_r].
+      cbn [negb] in H. destruct (forallb _ _); discriminate.
+    + destruct (e_sap (env_of r) && negb (zip212_on (r_net r) (r_height r))); discriminate.
+    + destruct (e_sap (env_of r) && negb (zip212_on (r_net r) (r_height r))); discriminate.
+  - unfold value_balance in V.
+    change (e_sap (env_of r)) with (negb (is_deferred r) && r_sap r) in V.
     destruct (zat_sum (tin_vals (r_ops r))); [|discriminate].
     destruct (zat_sum (map fst (tout_vs (r_ops r)))); [|discriminate].
-    destruct (r_sap r); cbn [andb orb].
+    destruct (negb (is_deferred r) && r_sap r); cbn [andb orb].
     + destruct (in_bal (sapling_balance (r_ops r))); [|reflexivity]. cbn [negb] in V.
       repeat match type of V with
       | context [match ?x with _ => _ end] => destruct x
@@ -812,17 +896,17 @@ Proof.
 Qed.
 
 Lemma built_contents_prop r b : build r = Ok b ->
-  b_tin b = tin_vals (r_ops r) /\ b_tout b = tout_vs (r_ops r) /\
+  b_tin b = tin_vs (r_ops r) /\ b_tout b = tout_vs (r_ops r) /\
   pool_ok (b_sap b) (ss_vals (r_ops r)) (so_vals (r_ops r)) /\
   pool_ok (b_orc b) (os_vals (r_ops r)) (oo_vals (r_ops r) ++ oc_vals (r_ops r)) /\
   pool_ok (b_iw b) (is_vals (r_ops r)) (io_vals (r_ops r)).
 Proof.
   intros H. apply built_contents in H. unfold contents_okb in H.
   rewrite !andb_true_iff in H. destruct H as ((((H1 & H2) & H3) & H4) & H5).
-  apply (proj1 (list_eqb_spec Z.eqb Z.eqb_eq _ _)) in H1.
   assert (P : forall a c, pair_z_eqb a c = true <-> a = c).
   { intros [a1 a2] [c1 c2]. unfold pair_z_eqb, pair_eqb. cbn [fst snd].
     rewrite andb_true_iff, !Z.eqb_eq. split; [intros [-> ->]; reflexivity|intros E; inversion E; auto]. }
+  apply (proj1 (list_eqb_spec pair_z_eqb P _ _)) in H1.
   apply (proj1 (list_eqb_spec pair_z_eqb P _ _)) in H2.
   repeat split; auto using pool_okb_sound.
 Qed.
